@@ -36,6 +36,7 @@ import CtyModel.Lemmas.ConvertD08Mono
 import CtyModel.Lemmas.ConvertD08Fuel
 import CtyModel.Lemmas.ConvertD08Covers
 import CtyModel.Lemmas.ConvertD08Roundtrip
+import CtyModel.Lemmas.ConvertD08CoversColl
 namespace CtyModel
 namespace C08
 open Convert Ty
@@ -220,16 +221,52 @@ theorem marked_input (E : Env) (fuel : Nat) (out : Ty) (conv : Plan) (v : Value)
 /-- Conversions between primitive types: `v` unknown with any refinement (marked or not), `v'` any
 well-typed value of the same type that `v` admits — a null, a more refined unknown, or a known value,
 marked or not.  The result for `v` admits the result for `v'` (`Covers`), whichever conversion
-(`GetConversion` or `GetConversionUnsafe`), environment and fuels.  (Collection targets — where the
-result's length refinement, or the known collection it collapses to, must admit the converted
-collection — are covered by `unknown_sound_partial` only as far as the bounds go; the `Covers`
-statement for them is searched by the harness: `cv.admits`.) -/
+(`GetConversion` or `GetConversionUnsafe`), environment and fuels.  (List and map targets:
+`unknown_covers_coll_partial`; for set targets, where members may coalesce, the `Covers` statement is
+searched by the harness — `cv.admits` — and `unknown_sound_partial` gives the bounds.) -/
 theorem unknown_covers_prim_partial (E : Env) (hU : UnifyLaws E) (fuel fuel' : Nat) (uns : Bool)
     (v v' r r' : Value) (want : Ty) (p : Plan) (hpv : isPrim v.ty = true) (hw : isPrim want = true)
     (hwt : wtP v.ty v.v = true) (hwt' : wtP v'.ty v'.v = true) (hty : v'.ty = v.ty)
     (hg : getConv E v.ty want uns = some p) (hk : v.isKnown = false) (hc : Covers v v' = true)
     (h : apply E fuel p v = .ok r) (h' : apply E fuel' p v' = .ok r') : Covers r r' = true :=
   unknown_covers_prim hU hpv hw hwt hwt' hty hg hk hc h h'
+
+/-- LIST AND MAP TARGETS, the known-collapse case included.  `v` unknown — a list, set, map, tuple or
+object type with any refinement, marked or not; `v'` a wholly-known non-null value of the same type that
+`v` admits (`Covers v v'`), marked or not at any depth, whose number of members fits an `int`.  The
+result for `v` is an unknown list / map carrying the length refinement `prepareUnknownResult` derives
+— or, when that length is exact, the KNOWN list of that many unknown members, or the empty list / map
+— and it admits the result for `v'`: the bounds admit the converted collection's length, and each
+unknown member of a collapsed result admits the corresponding converted member. -/
+theorem unknown_covers_coll_partial (E : Env) (hU : UnifyLaws E) (fuel fuel' : Nat) (uns : Bool)
+    (v v' r r' : Value) (want : Ty) (p : Plan) (hT : (∃ e, want = .list e) ∨ (∃ e, want = .map e))
+    (hp : RegularPair v want) (hwt' : wtP v'.ty v'.v = true) (hty : v'.ty = v.ty)
+    (hg : getConv E v.ty want uns = some p) (hk : v.isKnown = false)
+    (hk' : v'.isKnown = true) (hn' : v'.isNull = false) (hwk' : v'.v.whollyKnown = true)
+    (hfit : (srcLen v'.v.unmark1 : Int) ≤ CtyModel.maxInt) (hc : Covers v v' = true)
+    (h : apply E fuel p v = .ok r) (h' : apply E fuel' p v' = .ok r') : Covers r r' = true :=
+  unknown_covers_coll hU hT hp hwt' hty hg hk hk' hn' hwk' hfit hc h h'
+
+/-- the collapse at work: an unknown list of exactly two strings, not null, converts to the KNOWN list of two
+unknown numbers, which admits the conversion `[1, 2]` of the admitted `["1", "2"]` -/
+example :
+    convert Env.simple 4 ⟨.list .string, .unk (.coll .f 2 2)⟩ (.list .number) =
+      .ok ⟨.list .number, .seq [.unk .unref, .unk .unref]⟩ ∧
+    Covers ⟨.list .string, .unk (.coll .f 2 2)⟩ ⟨.list .string, .seq [.s "1", .s "2"]⟩ = true ∧
+    Covers ⟨.list .number, .seq [.unk .unref, .unk .unref]⟩
+      ⟨.list .number, .seq [.n (.fin false 1 0 512), .n (.fin false 1 1 512)]⟩ = true := by
+  refine ⟨rfl, by decide, by decide⟩
+
+/-- Conversions to a list / map type keep the number of elements (clause "preserves the converted value's
+information"): an unmarked known non-null value — a set only if its length is known — converted by a
+conversion `GetConversion*` returns gives a list / map with exactly as many members. -/
+theorem list_map_length_preserved_partial (E : Env) (hU : UnifyLaws E) (fuel : Nat) (uns : Bool) (v r : Value)
+    (want : Ty) (p : Plan) (hp : RegularPair v want) (hg : getConv E v.ty want uns = some p)
+    (hm : v.isMarked = false) (hk : v.isKnown = true) (hn : v.isNull = false) (hlk : lengthKnown v = true)
+    (h : apply E fuel p v = .ok r) :
+    (∀ oe, want = .list oe → ∃ xs, r.v = .seq xs ∧ xs.length = srcLen v.v) ∧
+    (∀ oe, want = .map oe → ∃ ks xs, r.v = .smap ks xs ∧ xs.length = srcLen v.v) :=
+  apply_len hU hp hg hm hk hn hlk h
 
 /-- EVERY placeholder-free target, collections included: `v` unknown (any refinement, marked or
 not), `v'` a null of the same type (marked or not) that `v` admits.  The result for `v` — an unknown
